@@ -1032,6 +1032,34 @@ def case_lifetime_param(prog, cls_name, A, P, via, kind_of="array", taint_mode="
     return finish(case, w)
 
 
+def case_lifetime_param_other_items(prog, cls_name, A, how, via, taint_mode="abort"):
+    """a parameter array over the model's letters whose LAST dimension has other items (one item only / one item more): refused"""
+    w = World(prog, taint_mode)
+    case = Case("lifetime-param", via, f"{cls_name}.{via}", {"op": f"{cls_name} parameter via {via}", "model_dims": list(A), "param_dims": list(A),
+                                                            "param_last_dimension": how})
+    names = LIFETIME_PRMS[cls_name]
+    ds = w.dimset(A)
+    last = A[-1]
+    items = w.items(last)[:1] if how == "single-item" else w.items(last) + [last + "_extra"]
+    own = {last: w.it.construct(w.Dimension, [], dict(name=last * 2, letter=last, items=ItemList(items)))}
+    prms, inputs = {}, [ds]
+    for nm in names:
+        prms[nm] = w.array("p_" + nm, A, dimobjs=own)
+        inputs.append(prms[nm])
+    snaps = w.snap(*inputs)
+    cls = prog.cls(cls_name)
+    if via == "__init__":
+        kind, m = run_guarded(lambda: w.it.construct(cls, [], dict(dims=ds, time_letter=A[0], **prms)))
+    else:
+        kind, m = run_guarded(lambda: w.it.construct(cls, [], dict(dims=ds, time_letter=A[0])))
+        if kind == "ok":
+            kind, m = run_guarded(lambda: w.it.call_method(m, "set_prms", **prms))
+    case.v("raises", kind == "raise", f"a parameter whose dimension '{last}' has other items than the model's ({how}) was accepted"
+                                      f"{' and broadcast over all items' if how == 'single-item' else ''}")
+    common_checks(case, w, inputs, snaps, kind if kind != "ok" else "ok", m if kind != "ok" else None)
+    return finish(case, w)
+
+
 def lifetime_param_cases(prog, alpha, taint_mode="abort"):
     import itertools as _it
     others = [l for l in alpha if l != "t"]
@@ -1047,6 +1075,9 @@ def lifetime_param_cases(prog, alpha, taint_mode="abort"):
                         continue
                     yield lambda A=A, c=cls_name, via=via, P=P: case_lifetime_param(prog, c, A, P, via, "array", taint_mode)
         yield lambda A=A: case_lifetime_param(prog, "FixedLifetime", A, ("e",), "set_prms", "array", taint_mode)
+        for how in ("single-item", "extra-item"):
+            for via in ("__init__", "set_prms"):
+                yield lambda A=A, how=how, via=via: case_lifetime_param_other_items(prog, "NormalLifetime" if "NormalLifetime" in prog.classes else "FixedLifetime", A, how, via, taint_mode)
 
 
 # ====================================================================== stock / lifetime-model validators (C13)
